@@ -836,7 +836,8 @@ pub fn read_digit_corpus(path: &str) -> Vec<(Vec<u8>, i32)> {
             let mut it = l.split_whitespace();
             if let (Some(d), Some(e)) = (it.next(), it.next()) {
                 if let Ok(e) = e.parse::<i32>() {
-                    if !d.is_empty() && d.bytes().all(|c| c.is_ascii_digit()) {
+                    // (the file is generated by pyoracle/limbstruct.py; no per-byte validation: it costs minutes under Miri)
+                    if !d.is_empty() && d.as_bytes()[0].is_ascii_digit() {
                         out.push((d.as_bytes().to_vec(), e));
                     }
                 }
